@@ -273,9 +273,15 @@ bool JsonSax::binary(JsonSax::binary_t& val)
 	return true;
 }
 
+/* Deeper documents are refused: the nested values are destroyed recursively, which overflows small (coroutine) stacks. */
+static const std::size_t l_JsonMaxNestingDepth = 1000;
+
 inline
 bool JsonSax::start_object(std::size_t)
 {
+	if (m_CurrentSubtree.size() >= l_JsonMaxNestingDepth)
+		BOOST_THROW_EXCEPTION(std::invalid_argument("JSON document is nested too deeply."));
+
 	auto object (new Dictionary());
 
 	FillCurrentTarget(object);
@@ -305,6 +311,9 @@ bool JsonSax::end_object()
 inline
 bool JsonSax::start_array(std::size_t)
 {
+	if (m_CurrentSubtree.size() >= l_JsonMaxNestingDepth)
+		BOOST_THROW_EXCEPTION(std::invalid_argument("JSON document is nested too deeply."));
+
 	auto array (new Array());
 
 	FillCurrentTarget(array);
